@@ -2054,7 +2054,14 @@ getattr_delegate(trait_object *trait, has_traits_object *obj, PyObject *name)
     tp = Py_TYPE(delegate);
 
     if (tp->tp_getattro != NULL) {
+        /* A delegation cycle (a.v -> b.v -> a.v ...) recurses through
+           tp_getattro without ever entering the interpreter loop. */
+        if (Py_EnterRecursiveCall(" while getting a delegated trait value")) {
+            result = NULL;
+            goto done;
+        }
         result = (*tp->tp_getattro)(delegate, delegate_attr_name);
+        Py_LeaveRecursiveCall();
         goto done;
     }
 
